@@ -125,12 +125,18 @@ async def charset_switch(chk, rng, count):
         srv = mkserver([s])
         a = Peer(srv)
         await a.login(caps=caps, charset=CHARSETS[first][0])
+        kind = rng.choice(["query", "exec", "exec-prepared-before"])
+        sid = None
+        if kind == "exec-prepared-before":
+            # the statement is prepared under the FIRST character set; the set in force when the EXECUTE arrives decodes it
+            o = await a.cmd(b"\x16select ? from t")
+            sid = struct.unpack_from("<I", o[0][1], 1)[0]
         how = rng.choice(["variable", "change-user"])      # (the SET NAMES statement itself is C14 / C15's subject; this session records raw queries)
+        if kind == "exec-prepared-before":
+            how = "variable"                               # (COM_CHANGE_USER would not drop the statement, but keep this case minimal)
         if how == "variable":
             # the effect of `SET NAMES <second>` (C14 / C15 check that statement itself): the session variable changes
             s.variables.set("character_set_client", second)
-        elif how == "set-names":
-            await a.cmd(com_query(b"SET NAMES " + second.encode(), caps=caps))
         else:
             # COM_CHANGE_USER carries a collation: its character set is in force for everything after it
             from lib import com_change_user
@@ -146,15 +152,18 @@ async def charset_switch(chk, rng, count):
         _, codec, text = CHARSETS[second]
         name, value = text, text[::-1]
         attrs = [(253, False, value.encode(codec), name.encode(codec)), (3, False, 7, "n".encode(codec))]
-        kind = rng.choice(["query", "exec"])
         before = len(s.log)
+        want_sql = None
         if kind == "query":
             out = await a.cmd(com_query(b"select 1", caps=caps, attrs=attrs), n=30)
         else:
-            o = await a.cmd(b"\x16select ? from t")
-            sid = struct.unpack_from("<I", o[0][1], 1)[0]
+            if sid is None:
+                o = await a.cmd(b"\x16select ? from t")
+                sid = struct.unpack_from("<I", o[0][1], 1)[0]
             before = len(s.log)
-            out = await a.cmd(com_stmt_execute(sid, [(3, False, 1, b"")], caps=caps, attrs=attrs), n=30)
+            pval = text + "!"
+            out = await a.cmd(com_stmt_execute(sid, [(253, False, pval.encode(codec), b"")], caps=caps, attrs=attrs), n=30)
+            want_sql = "select '%s' from t" % pval
         got = [l for l in s.log[before:] if l[0] == "hq"]
         await a.finish()
         desc = dict(handshake_charset=first, switched_to=second, switched_by=how, then=after, command=kind, attribute_name=name, attribute_value=value)
@@ -164,6 +173,9 @@ async def charset_switch(chk, rng, count):
             chk.fail("command with attributes in the switched character set did not reach the application", desc, dict(reply=[p[:60] for _, p in out][:1]))
         elif got[0][2] != {name: value, "n": 7}:
             chk.fail("attribute names / values were decoded with another character set than the one in force", desc, dict(received=str(got[0][2])[:200]))
+        elif want_sql is not None and got[0][1] != want_sql:
+            chk.fail("a string parameter sent along with the attributes was decoded with another character set than the one in force", desc,
+                     dict(received=got[0][1], expected=want_sql))
 
 
 def main():
